@@ -43,7 +43,10 @@ def ob_a(ob):
 
     ob.encodes(Parser.forward)
     ob.bound("batches [[O,H,H],[H,H,pad]] and [[H,H,pad],[O,H,H]] (order swapped) and [[O,C,pad,pad],[O,O,H,H]]; all coordinates incl. padding slots symbolic reals in (-100,100) with distinct real atoms; default pair cutoff")
-    for species in ([[8, 1, 1], [1, 1, 0]], [[1, 1, 0], [8, 1, 1]], [[8, 6, 0, 0], [8, 8, 1, 1]]):
+    cases = [[[8, 1, 1], [1, 1, 0]], [[1, 1, 0], [8, 1, 1]], [[8, 6, 0, 0], [8, 8, 1, 1]]]
+    if ob.tier == "thorough":
+        cases += [[[8, 6, 1, 1], [6, 1, 1, 0]], [[1, 1, 0, 0], [8, 6, 1, 1], [8, 1, 1, 0]]]
+    for species in cases:
         nmol, molsize = len(species), len(species[0])
         X = S.reals("x", (nmol, molsize, 3))
         assm = [z3.And(v > -100, v < 100) for v in X.reshape(-1)]
